@@ -337,12 +337,24 @@ class Union:
         self.__args__ = self.types = types
 
     def codegen(self):
-        from .dependent import combine, generate_checking_code
+        from .dependent import (
+            CodeGen,
+            DependentType,
+            combine,
+            generate_checking_code,
+        )
+
+        def member(t):
+            cg = generate_checking_code(t)
+            if isinstance(t, DependentType):
+                # The value may only match another member of the union: the
+                # condition must not see what is not an instance of its bound
+                bound = CodeGen("isinstance({arg}, {bound})", bound=t.bound)
+                return combine("{} and {}", [bound, cg])
+            return cg
 
         template = " or ".join("{}" for t in self.types)
-        return combine(
-            template, [generate_checking_code(t) for t in self.types]
-        )
+        return combine(template, [member(t) for t in self.types])
 
     def __type_order__(self, other):
         if other is Union:
